@@ -226,7 +226,7 @@ func (b *Bundle) Place(container string, s jx.Obj, name string) string {
 }
 
 var BundleHolders = []string{"schema", "property", "items", "tuple", "additionalProperties", "additionalItems", "allOf"}
-var ExtendedHolders = []string{"anyOf", "oneOf", "not", "patternProperties", "schemaDefinitions", "additionalItemsAlone"}
+var ExtendedHolders = []string{"anyOf", "oneOf", "not", "patternProperties", "schemaDefinitions", "additionalItemsAlone", "additionalItemsSingleItems"}
 
 // Hold wraps leaf (usually a $ref node) under `depth` levels of the holder kind.
 func (b *Bundle) Hold(holder string, leaf jx.Obj, depth int, key string) jx.Obj {
@@ -249,6 +249,9 @@ func (b *Bundle) Hold(holder string, leaf jx.Obj, depth int, key string) jx.Obj 
 			cur = jx.Obj{"type": "object", "description": b.lbl("hap"), "additionalProperties": cur}
 		case "additionalItems":
 			cur = jx.Obj{"type": "array", "description": b.lbl("hai"), "items": jx.Arr{jx.Obj{"type": "string"}}, "additionalItems": cur}
+		case "additionalItemsSingleItems":
+			// additionalItems next to items given as a single schema
+			cur = jx.Obj{"type": "array", "description": b.lbl("hais"), "items": jx.Obj{"type": "string"}, "additionalItems": cur}
 		case "additionalItemsAlone":
 			cur = jx.Obj{"type": "array", "description": b.lbl("haia"), "additionalItems": cur}
 		case "allOf":
